@@ -6,9 +6,11 @@ A write is a sequence of cfitsio calls ("steps").  Each step returns a status; t
 reported outcome together with the trace of calls made and their statuses — exactly what the harness
 observes by interposing the cfitsio entry points (`harness/c08_harness.cpp`).
 
-Two variants are modelled: the code as repaired by `fixes/C08-1.diff` + `fixes/C08-2.diff` (`writeFits`, `writeFitsMem`)
-and the code as found (`writeFitsOld`, `writeFitsMemOld`), where flush/close happen in a scope guard whose
-status is only printed.
+Modelled: the code as repaired by `fixes/C08-1.diff` + `fixes/C08-2.diff` + `fixes/C08-3.diff` (`writeFits`,
+`writeFitsMem`: explicit checked close, checked `fits_create_memfile`, header keys written before the coefficient
+data), the code as found (`writeFitsOld`, `writeFitsMemOld`), where flush/close happen in a scope guard whose
+status is only printed and the coefficient data are written before the header keys, and the intermediate state
+without `C08-3` (`writeFitsPre3`, `writeFitsMemPre3`).
 Mathlib-free, executable.
 -/
 namespace PsV.C08
@@ -30,9 +32,21 @@ structure Shape where
   hasExtents : Bool
   deriving Repr
 
-/-- `write_fits_core`, in order: coefficient image (create, write), `TYPE`, `ORDERn`, `PERIODn` (if the table
-    has periods), aux keys, one image HDU per knot vector (create, `EXTNAME`, write), extents (if present). -/
+/-- `write_fits_core`, in order (as repaired by `fixes/C08-3.diff`): create the coefficient image, `TYPE`, `ORDERn`,
+    `PERIODn` (if the table has periods), aux keys, write the coefficients, one image HDU per knot vector (create,
+    `EXTNAME`, write), extents (if present).  All keys of the primary header are written before any pixel data, so
+    the header never has to grow once data follow it. -/
 def coreSteps (s : Shape) : List Step :=
+  [.crim, .pky] ++ List.replicate s.ndim .pky
+    ++ (if s.hasPeriods then List.replicate s.ndim .pky else [])
+    ++ List.replicate s.naux .pky
+    ++ [.ppx]
+    ++ (List.replicate s.ndim [Step.crim, .uky, .ppx]).flatten
+    ++ (if s.hasExtents then [.crim, .uky, .ppx] else [])
+
+/-- `write_fits_core` as found: the coefficients are written right after the image is created, the keys afterwards
+    (a primary header of more than 35 cards then makes cfitsio insert a block in front of data already written). -/
+def coreStepsDataFirst (s : Shape) : List Step :=
   [.crim, .ppx, .pky] ++ List.replicate s.ndim .pky
     ++ (if s.hasPeriods then List.replicate s.ndim .pky else [])
     ++ List.replicate s.naux .pky
@@ -58,38 +72,48 @@ def runCore (env : Env) : List Step → Nat → Bool × List (Step × Bool)
       (r.1, (s, true) :: r.2)
     else (false, [(s, false)])
 
-/-- `write_fits` after the repair: create; core; on an exception the guard deletes the file (status ignored —
-    we are already failing); otherwise close explicitly, and a failing close removes the file and throws. -/
-def writeFits (sh : Shape) (env : Env) : Result :=
+/-- `write_fits` after the repair, around a given call sequence of `write_fits_core`: create; core; on an exception
+    the guard deletes the file (status ignored — we are already failing); otherwise close explicitly, and a failing
+    close removes the file and throws. -/
+def writeFitsOn (steps : List Step) (env : Env) : Result :=
   if !env 0 then ⟨.failure, [(.init, false)]⟩ else
-  let r := runCore env (coreSteps sh) 1
+  let r := runCore env steps 1
   let n := 1 + r.2.length
   if r.1 then
     if env n then ⟨.success, (.init, true) :: r.2 ++ [(.clos, true)]⟩
     else ⟨.failure, (.init, true) :: r.2 ++ [(.clos, false), (.remove, env (n+1))]⟩
   else ⟨.failure, (.init, true) :: r.2 ++ [(.delt, env n)]⟩
 
+def writeFits (sh : Shape) (env : Env) : Result := writeFitsOn (coreSteps sh) env
+
+/-- with `C08-1`/`C08-2` but without `C08-3` -/
+def writeFitsPre3 (sh : Shape) (env : Env) : Result := writeFitsOn (coreStepsDataFirst sh) env
+
 /-- `write_fits` as found: the guard closes the file on every path and only prints the status. -/
 def writeFitsOld (sh : Shape) (env : Env) : Result :=
   if !env 0 then ⟨.failure, [(.init, false)]⟩ else
-  let r := runCore env (coreSteps sh) 1
+  let r := runCore env (coreStepsDataFirst sh) 1
   let n := 1 + r.2.length
   ⟨if r.1 then .success else .failure, (.init, true) :: r.2 ++ [(.clos, env n)]⟩
 
 /-- `write_fits_mem` after the repair (`C08-2`: the status of `fits_create_memfile` is checked). -/
-def writeFitsMem (sh : Shape) (env : Env) : Result :=
+def writeFitsMemOn (steps : List Step) (env : Env) : Result :=
   if !env 0 then ⟨.failure, [(.imem, false)]⟩ else
-  let r := runCore env (coreSteps sh) 1
+  let r := runCore env steps 1
   let n := 1 + r.2.length
   if r.1 then
     ⟨if env n then .success else .failure, (.imem, true) :: r.2 ++ [(.clos, env n)]⟩
   else ⟨.failure, (.imem, true) :: r.2 ++ [(.clos, env n)]⟩
 
+def writeFitsMem (sh : Shape) (env : Env) : Result := writeFitsMemOn (coreSteps sh) env
+
+def writeFitsMemPre3 (sh : Shape) (env : Env) : Result := writeFitsMemOn (coreStepsDataFirst sh) env
+
 /-- `write_fits_mem` as found, for a successful `fits_create_memfile` (when that call fails the code as found
     passes a null handle on and crashes; the model has no outcome for a crash, so `none`). -/
 def writeFitsMemOld (sh : Shape) (env : Env) : Option Result :=
   if !env 0 then none else
-  let r := runCore env (coreSteps sh) 1
+  let r := runCore env (coreStepsDataFirst sh) 1
   let n := 1 + r.2.length
   some ⟨if r.1 then .success else .failure, (.imem, true) :: r.2 ++ [(.clos, env n)]⟩
 
